@@ -6,7 +6,7 @@ from vf.runner import Acc
 ID = "C18"
 LEVEL = "model_checking"
 TECHNIQUE = "breadth-first explicit-state search over add/remove histories on two live Enum objects (histories replayed on fresh objects, canonical state hashed for de-duplication), every state compared with two ordinary dicts as reference model"
-RULE = ("initial mappings in dict form and keyword form (incl. empty, duplicate values, nested dict and OpCode values); operations add(name,value) "
+RULE = ("initial mappings in dict form, keyword form and as the service-action table of an OpCode (incl. empty, duplicate values, falsy values, nested dict and OpCode values); the library's shipped tables must be unchanged afterwards; operations add(name,value) "
         "and remove(name) on either of two enumerations over names {A, B, 'C-D e'} x values {big int, 0, {'n':1}, OpCode, None | second int, {}, 'x', ''} (quick: the first 5); BFS to "
         "depth 4 (quick) / 5 (thorough) with de-duplication on the ordered item lists of both enumerations; in every state: keys, every getattr, "
         "reverse lookup of every alphabet value, refusal of duplicate add / missing remove, on both enumerations. states = distinct canonical "
@@ -61,6 +61,10 @@ INITS = [
     [("dict", []), ("kw", [("A", "i1")])],
     [("dict", [("B", "op"), ("A", "op"), ("C-D e", "zero")]), ("dict", [])],
     [("kw", [("A", "none"), ("B", "zero")]), ("dict", [("C-D e", "zero")])],
+    # enumerations the library itself creates: the service-action table of an OpCode (empty and non-empty)
+    [("op", []), ("op", [])],
+    [("op", []), ("op", [("A", "i1")])],
+    [("op", [("B", "zero")]), ("dict", [])],
 ]
 
 
@@ -81,6 +85,9 @@ def build(init, hist, vals):
         mapping = collections.OrderedDict((k, vd[t]) for k, t in items)
         if form == "dict":
             e = Enum(dict(mapping))
+        elif form == "op":
+            from pyscsi.pyscsi.scsi_opcode import OpCode
+            e = OpCode("X%d" % len(enums), 0x12, dict(mapping)).serviceaction
         else:
             e = Enum(**mapping)
         enums.append(e)
@@ -154,6 +161,19 @@ def check_state(enums, models, vals, where):
     return out
 
 
+def shipped_snapshot():
+    """names of every enumeration the library ships in its opcode tables (sets and their service-action tables)"""
+    import pyscsi.pyscsi.scsi_enum_command as E
+    snap = []
+    for sname in ("spc", "sbc", "ssc", "smc", "mmc", "SCSI_STATUS"):
+        st = getattr(E, sname)
+        snap.append((sname, tuple(st.keys)))
+        if sname != "SCSI_STATUS":
+            for k in st.keys:
+                snap.append((sname + "." + k, tuple(getattr(st, k).serviceaction.keys)))
+    return tuple(snap)
+
+
 def canon(enums, vals):
     return tuple(observe(e, vals) for e in enums)
 
@@ -182,6 +202,9 @@ def run_partition(part, tier, seed):
             for t, _ in vals:
                 ops.append((which, "add", n, t))
             ops.append((which, "remove", n))
+    shipped0 = shipped_snapshot()
+    # the OpCode-made enumerations add breadth (more empty starting points); they are explored one level shallower
+    depth = b["depth"] - (1 if any(form == "op" for form, _ in INITS[idx]) else 0)
     enums, models, _ = build(INITS[idx], [], vals)
     seen = {canon(enums, vals)}
     frontier = collections.deque([()])
@@ -190,7 +213,7 @@ def run_partition(part, tier, seed):
     acc.case([idx, [], b["values"]], nontrivial=False, key=(idx, ()))
     while frontier:
         hist = frontier.popleft()
-        if len(hist) >= b["depth"]:
+        if len(hist) >= depth:
             continue
         for opi, op in enumerate(ops):
             if not hist and opi % NCHUNK != chunk:
@@ -211,4 +234,7 @@ def run_partition(part, tier, seed):
                 seen.add(c)
                 frontier.append(h2)
     acc.stateset |= {hash((idx, c)) for c in seen}
+    if shipped_snapshot() != shipped0:
+        diff = [a[0] for a, b in zip(shipped_snapshot(), shipped0) if a != b][:5]
+        acc.violation("shipped_tables_changed", "operating on unrelated enumerations changed the library's own tables: %r" % diff, [idx, [], b["values"]])
     return acc
